@@ -6,7 +6,7 @@ For a random sample of small AST mutations in the functions whose real body some
   2. do the proof units that execute that function still discharge everything?        -> 'killed by a unit' otherwise
 Writes mutation/results.jsonl (one line per mutant) and prints the kill matrix.  Needs coverage.json
 (bin/coverage_report.py).  Usage: mutation_sweep.py <count> [seed] [jobs]"""
-import ast, copy, json, os, random, shutil, subprocess, sys, tempfile, time
+import ast, copy, json, os, random, re, shutil, subprocess, sys, tempfile, time
 from concurrent.futures import ThreadPoolExecutor
 
 ROOT = os.path.dirname(os.path.dirname(os.path.abspath(__file__)))
@@ -128,8 +128,11 @@ def run_mutant(args):
         seg = ast.get_source_segment(src, cands[pick][1]) if False else None
         open(path, "w").write(ast.unparse(tree) + "\n")
         t0 = time.time()
-        p = subprocess.run(["/venv/bin/python", "-m", "pytest", "-q", "-x", "-p", "no:cacheprovider", "--timeout=600", "tests"] + DESELECT, cwd=W, capture_output=True, text=True, timeout=1500)
-        tests_pass = p.returncode == 0
+        if os.environ.get("MUT_SKIP_TESTS"):
+            tests_pass = None  # focused sweep: only the proof units are asked
+        else:
+            p = subprocess.run(["/venv/bin/python", "-m", "pytest", "-q", "-x", "-p", "no:cacheprovider", "--timeout=600", "tests"] + DESELECT, cwd=W, capture_output=True, text=True, timeout=1500)
+            tests_pass = p.returncode == 0
         t_tests = time.time() - t0
         t0 = time.time()
         env = dict(os.environ, PYVC_REPO=W, PYTHONPATH=W)
@@ -156,10 +159,11 @@ def main():
     cov = json.load(open(os.path.join(ROOT, "coverage.json")))
     ue = cov["units_executing"]
     # the 9 tests that fail on the unchanged tree (optional dependencies)
-    p = subprocess.run(["/venv/bin/python", "-m", "pytest", "-q", "-p", "no:cacheprovider", "--timeout=600", "tests"], cwd=REPO, capture_output=True, text=True)
-    for l in p.stdout.split("\n"):
-        if l.startswith("FAILED "):
-            DESELECT.extend(["--deselect", l.split(" ")[1]])
+    if not os.environ.get("MUT_SKIP_TESTS"):
+        p = subprocess.run(["/venv/bin/python", "-m", "pytest", "-q", "-p", "no:cacheprovider", "--timeout=600", "tests"], cwd=REPO, capture_output=True, text=True)
+        for l in p.stdout.split("\n"):
+            if l.startswith("FAILED "):
+                DESELECT.extend(["--deselect", l.split(" ")[1]])
     print("baseline failing tests deselected:", len(DESELECT) // 2, flush=True)
     rng = random.Random(seed)
     pool = []
@@ -176,6 +180,8 @@ def main():
             for q, node, kind in candidates(tree, modname):
                 if q not in ue:
                     continue
+                if os.environ.get("MUT_ONLY") and not re.search(os.environ["MUT_ONLY"], q):
+                    continue
                 k = seen.get((q, kind), 0)
                 seen[(q, kind)] = k + 1
                 pool.append((rel, q, kind, k))
@@ -184,7 +190,7 @@ def main():
     print(f"{len(pool)} candidate mutations in functions executed by some unit; sampling {len(sample)}", flush=True)
     os.makedirs(os.path.join(ROOT, "mutation"), exist_ok=True)
     out = open(os.path.join(ROOT, "mutation", f"results_seed{seed}.jsonl"), "w")
-    jobs_ = [(i, rel, q, kind, k, [u for u in ue[q] if "[bounded" not in u][:6]) for i, (rel, q, kind, k) in enumerate(sample)]
+    jobs_ = [(i, rel, q, kind, k, [u for u in ue[q] if "[bounded" not in u][:int(os.environ.get("MUT_MAX_UNITS", "6"))]) for i, (rel, q, kind, k) in enumerate(sample)]
     with ThreadPoolExecutor(jobs) as ex:
         for r in ex.map(run_mutant, jobs_):
             if r is None:
@@ -194,7 +200,7 @@ def main():
             if "error" in r:
                 print(r["idx"], "ERROR", r["error"], flush=True)
             else:
-                print(r["idx"], r["function"].split("pygradflow.")[-1], r["kind"], r["mutation"], "| tests", "pass" if r["tests_pass"] else "FAIL", "| units", "KILL " + ",".join(k[0] for k in r["killed_by"]) if r["killed_by"] else "| units survive", flush=True)
+                print(r["idx"], r["function"].split("pygradflow.")[-1], r["kind"], r["mutation"], "| tests", "-" if r["tests_pass"] is None else ("pass" if r["tests_pass"] else "FAIL"), "| units", "KILL " + ",".join(k[0] for k in r["killed_by"]) if r["killed_by"] else "| units survive", flush=True)
 
 
 if __name__ == "__main__":
